@@ -60,6 +60,9 @@ Clauses(ev) ==
         }
     [] ev.a = "RxQueue" ->
         { C({"C18"}, "ReceiveQueueListsAnnouncedNotYetPopped", {ev.ids[i] : i \in DOMAIN ev.ids} = announced \ popped) }
+    \* (the application pops late: something that was announced is no longer in the queue)
+    [] ev.a = "PopFailed" ->
+        { C(Tag \cup {"C18"}, "AnnouncedBundleCanBePopped", FALSE) }
     [] ev.a = "PopAgain" ->
         { C({"C18"}, "PoppingReturnsTheDataExactlyOnce", ~ev.gave_data) }
     [] ev.a = "Sig" ->
